@@ -10,6 +10,7 @@ import (
 	"io"
 
 	"github.com/cloudwego/eino/compose"
+	"github.com/cloudwego/eino/schema"
 )
 
 type T1 struct{ X int }
@@ -49,6 +50,9 @@ type GraphH interface {
 	AddPassthroughNode(key string, opts ...compose.GraphAddNodeOpt) error
 	AddEdge(s, e string) error
 	AddBranch(s string, b *compose.GraphBranch) error
+	// AddSubGraph adds a graph built by MkGraph as a node (AddGraphNode)
+	AddSubGraph(key string, sub GraphH, opts ...compose.GraphAddNodeOpt) error
+	anyGraph() compose.AnyGraph
 	Compile(ctx context.Context, opts ...compose.GraphCompileOption) (Invoker, error)
 }
 
@@ -96,27 +100,90 @@ func (g gh[I, O]) Compile(ctx context.Context, opts ...compose.GraphCompileOptio
 	}, nil
 }
 
+func (g gh[I, O]) AddSubGraph(key string, sub GraphH, opts ...compose.GraphAddNodeOpt) error {
+	return g.Graph.AddGraphNode(key, sub.anyGraph(), opts...)
+}
+
+func (g gh[I, O]) anyGraph() compose.AnyGraph { return g.Graph }
+
 func MkGraph[I, O any](opts ...compose.NewGraphOption) GraphH {
 	return gh[I, O]{compose.NewGraph[I, O](opts...)}
 }
 
-func MkLambda[I, O any](emit func() any) *compose.Lambda {
-	return compose.InvokableLambda(func(ctx context.Context, in I) (O, error) {
-		var out O
+// MkLambda: a lambda of declared types I -> O that returns what emit says; kind selects the
+// paradigm it is written in: 0 Invoke | 1 Stream | 2 Collect | 3 Transform (the stream-reading
+// kinds read their input to its end first, so that a lazily converted chunk is checked)
+func MkLambda[I, O any](emit func() any, kind int) *compose.Lambda {
+	out := func() O {
+		var o O
 		if v := emit(); v != nil {
-			out = v.(O)
+			o = v.(O)
 		}
-		return out, nil
+		return o
+	}
+	drain := func(sr *schema.StreamReader[I]) error {
+		defer sr.Close()
+		for {
+			_, err := sr.Recv()
+			if err == io.EOF {
+				return nil
+			}
+			if err != nil {
+				return err
+			}
+		}
+	}
+	switch kind {
+	case 1:
+		return compose.StreamableLambda(func(ctx context.Context, in I) (*schema.StreamReader[O], error) {
+			return schema.StreamReaderFromArray([]O{out()}), nil
+		})
+	case 2:
+		return compose.CollectableLambda(func(ctx context.Context, in *schema.StreamReader[I]) (O, error) {
+			if err := drain(in); err != nil {
+				var o O
+				return o, err
+			}
+			return out(), nil
+		})
+	case 3:
+		return compose.TransformableLambda(func(ctx context.Context, in *schema.StreamReader[I]) (*schema.StreamReader[O], error) {
+			if err := drain(in); err != nil {
+				return nil, err
+			}
+			return schema.StreamReaderFromArray([]O{out()}), nil
+		})
+	}
+	return compose.InvokableLambda(func(ctx context.Context, in I) (O, error) {
+		return out(), nil
 	})
 }
 
-func MkBranch[T any](choice []string, ends map[string]bool) *compose.GraphBranch {
-	return compose.NewGraphMultiBranch(func(ctx context.Context, in T) (map[string]bool, error) {
+// MkBranch: kind 0 = NewGraphMultiBranch, 1 = NewStreamGraphMultiBranch (reads its input to the end)
+func MkBranch[T any](choice []string, ends map[string]bool, kind int) *compose.GraphBranch {
+	pick := func() map[string]bool {
 		m := map[string]bool{}
 		for _, c := range choice {
 			m[c] = true
 		}
-		return m, nil
+		return m
+	}
+	if kind == 1 {
+		return compose.NewStreamGraphMultiBranch(func(ctx context.Context, in *schema.StreamReader[T]) (map[string]bool, error) {
+			defer in.Close()
+			for {
+				_, err := in.Recv()
+				if err == io.EOF {
+					return pick(), nil
+				}
+				if err != nil {
+					return nil, err
+				}
+			}
+		}, ends)
+	}
+	return compose.NewGraphMultiBranch(func(ctx context.Context, in T) (map[string]bool, error) {
+		return pick(), nil
 	}, ends)
 }
 
